@@ -651,8 +651,8 @@ type primCall struct {
 	call *ast.CallExpr
 	name string
 	// binding of fn's parameters to the argument expressions of the call that reached fn (one level)
-	bind     map[types.Object]ast.Expr
-	bindFn   *FuncNode
+	bind   map[types.Object]ast.Expr
+	bindFn *FuncNode
 }
 
 // primCalls collects calls to external primitives reachable from fn through static module calls (depth<=3).
